@@ -25,7 +25,7 @@ InScope(g, p, op) ==
   /\ op.t = "rm" => p # <<>>
   /\ (op.t = "repl" /\ p = <<>>) => op.v.k = g[1].k
 
-FocusCases ==
+FocusCases(dummy) ==
   UNION {{[kind |-> "focus", gi |-> gi, path |-> p, op |-> op, cp |-> cp, path2 |-> <<>>, op2 |-> op]
             : p \in {x \in Targets(Graphs[gi]) : \E o \in Ops : InScope(Graphs[gi], x, o)},
               op \in Ops, cp \in BOOLEAN} : gi \in DOMAIN Graphs}
@@ -34,7 +34,7 @@ FocusCases ==
         : ~InScope(Graphs[x.gi], x.path, x.op)}
 
 \* two transforms one after another (the second applied to the result of the first, at a position that exists there)
-SeqCases ==
+SeqCases(dummy) ==
   {x \in UNION {{[kind |-> "focus2", gi |-> gi, path |-> p, op |-> [t |-> "repl", v |-> NewV], cp |-> TRUE, path2 |-> q, op2 |-> op2]
             : p \in {x \in Targets(Graphs[gi]) : Len(x) <= 2 /\ x # <<>>}, q \in {x \in PathsOf(Graphs[gi], Graphs[gi][1], 2) : Len(x) >= 1},
               op2 \in {[t |-> "rm", v |-> Nil], [t |-> "repl", v |-> I(5)]}} : gi \in {1, 2, 3}}
@@ -43,29 +43,41 @@ SeqCases ==
 
 WalkSels(g) == CtlSels(g) \cup {SMatch, SAll(SMatch), SFields(<<b, a>>, <<SMatch, SAll(SMatch)>>),
                                 SRec(-1, -1, SUnion(<<SMatch, SAll(SEdge)>>)), SIndex(1, SMatch), SRange(0, 2, SAll(SMatch))}
-WalkCases ==
+WalkCases(dummy) ==
   UNION {{[kind |-> "walk", gi |-> gi, path |-> <<>>, op |-> [t |-> "id", v |-> Nil], cp |-> FALSE, path2 |-> <<>>,
            op2 |-> [t |-> "id", v |-> Nil], sel |-> s] : s \in WalkSels(Graphs[gi])} : gi \in DOMAIN Graphs}
 
 \* thorough tier: two-step sequences on every graph; walking transforms over a hashed sample of ALL depth-2 selectors
-SeqCasesAll ==
+SeqCasesAll(dummy) ==
   {x \in UNION {{[kind |-> "focus2", gi |-> gi, path |-> p, op |-> op1, cp |-> TRUE, path2 |-> q, op2 |-> op2]
             : p \in {x \in Targets(Graphs[gi]) : Len(x) <= 2 /\ x # <<>>}, q \in {x \in PathsOf(Graphs[gi], Graphs[gi][1], 2) : Len(x) >= 1},
               op1 \in {[t |-> "repl", v |-> NewV], [t |-> "rm", v |-> Nil]},
               op2 \in {[t |-> "rm", v |-> Nil], [t |-> "repl", v |-> I(5)], [t |-> "id", v |-> Nil]}} : gi \in DOMAIN Graphs}
      : LET g == Graphs[x.gi]  r == Upd(Expand(g, g[1]), x.path, x.op, TRUE)
        IN InScope(g, x.path, x.op) /\ r.ok /\ r.v # Nil /\ At(r.v, x.path2) # Nil}
-WalkCases2 ==
+WalkCases2(dummy) ==
   UNION {{[kind |-> "walk", gi |-> gi, path |-> <<>>, op |-> [t |-> "id", v |-> Nil], cp |-> FALSE, path2 |-> <<>>,
            op2 |-> [t |-> "id", v |-> Nil], sel |-> s]
             : s \in {x \in Closed(2, Graphs[gi]) : SelWeight(x) % 13 = Sample /\ Compiles(x, FALSE)}} : gi \in DOMAIN Graphs}
 
-Init == tc \in (CASE TMode = "focus" -> FocusCases [] TMode = "focus2" -> SeqCases [] TMode = "focus2all" -> SeqCasesAll
-                   [] TMode = "walk2" -> WalkCases2 [] OTHER -> WalkCases)
+\* TMode "walkfile": walking transforms over the random (graph, selector) cases written by vh walk-gen (those that compile
+\* and carry no traversal control)
+WalkFileCases(dummy) ==
+  LET raw == ndJsonDeserialize("trace.ndjson")
+      plain(cf) == cf.nb = -1 /\ cf.lb = -1 /\ cf.start = <<>> /\ ~cf.once /\ \A j \in DOMAIN cf.skip : ~cf.skip[j]
+  IN {[kind |-> "walk", gi |-> 0, g |-> raw[i].g, path |-> <<>>, op |-> [t |-> "id", v |-> Nil], cp |-> FALSE, path2 |-> <<>>,
+       op2 |-> [t |-> "id", v |-> Nil], sel |-> raw[i].sel]
+        : i \in {j \in DOMAIN raw : plain(raw[j].cfg) /\ Compiles(raw[j].sel, FALSE) /\ ~HasAs(raw[j].sel)}}
+\* (selectors that interpret nodes through an ADL are left out: the walking transform rebuilds the tree from the REIFIED
+\* nodes, so its result is a view, not an update of the original -- not what C16 speaks about)
+GraphOf(t) == IF t.gi = 0 THEN t.g ELSE Graphs[t.gi]
+
+Init == tc \in (CASE TMode = "walkfile" -> WalkFileCases(0) [] TMode = "focus" -> FocusCases(0) [] TMode = "focus2" -> SeqCases(0) [] TMode = "focus2all" -> SeqCasesAll(0)
+                   [] TMode = "walk2" -> WalkCases2(0) [] OTHER -> WalkCases(0))
 Next == UNCHANGED tc
 Spec == Init /\ [][Next]_tvars
 
-E0 == Expand(Graphs[tc.gi], Graphs[tc.gi][1])
+E0 == Expand(GraphOf(tc), GraphOf(tc)[1])
 R1 == Upd(E0, tc.path, tc.op, tc.cp)
 R2 == IF tc.kind = "focus2" /\ R1.ok /\ R1.v # Nil THEN Upd(R1.v, tc.path2, tc.op2, TRUE) ELSE R1
 
@@ -83,7 +95,7 @@ RemoveRemoves ==
         /\ before.k = "map" => At(R1.v, tc.path) = Nil
 Emit == PrintT(ToJson(
    IF tc.kind = "walk"
-     THEN [kind |-> "walk", g |-> Graphs[tc.gi], sel |-> tc.sel, path |-> <<>>, op |-> tc.op, cp |-> FALSE,
+     THEN [kind |-> "walk", g |-> GraphOf(tc), sel |-> tc.sel, path |-> <<>>, op |-> tc.op, cp |-> FALSE,
            path2 |-> <<>>, op2 |-> tc.op2, ok |-> TRUE, result |-> WT(E0, tc.sel), seen |-> Nil]
      ELSE [kind |-> tc.kind, g |-> Graphs[tc.gi], sel |-> SMatch, path |-> tc.path, op |-> tc.op, cp |-> tc.cp,
            path2 |-> tc.path2, op2 |-> tc.op2, ok |-> R2.ok, result |-> IF R2.ok THEN R2.v ELSE Nil,
